@@ -76,6 +76,8 @@ func servicesText(ver int, invalidEntry bool) string {
 	for j := 0; j < markers; j++ {
 		rules = append(rules, "||"+marker(j, ver, "svc")+"^")
 	}
+	// The service also covers a host that rule lists have verdicts on.
+	rules = append(rules, "||multi.shared.test^")
 	svcs := []map[string]any{
 		{"id": "svc_a", "name": "Service A", "rules": rules},
 	}
@@ -96,7 +98,12 @@ func indexText(t *kernel.Tape, nLists int) string {
 	}
 	// A sprinkling of invalid entries; the valid ones must still be applied.
 	for i := t.Choose(3, "invalid-entries"); i > 0; i-- {
-		switch t.Choose(4, "invalid-kind") {
+		switch t.Choose(6, "invalid-kind") {
+		case 4:
+			// An invalid record in front of the valid record of the same key.
+			fl = append([]map[string]any{{"filterKey": string(listID(t.Choose(nLists, "twin-of"))), "downloadUrl": ""}}, fl...)
+		case 5:
+			fl = append([]map[string]any{{"filterKey": string(listID(t.Choose(nLists, "twin-of"))), "downloadUrl": "ftp://origin.sim/list"}}, fl...)
 		case 0:
 			fl = append(fl, map[string]any{"filterKey": "empty_url", "downloadUrl": ""})
 		case 1:
